@@ -229,6 +229,12 @@ fn js_corpus() -> Vec<Project> {
     for k in 0..400u64 {
         corpus.push(crate::gen::synthetic_project(0xC16_0000 + k));
     }
+    // literal unions whose sorted order differs between collation locales (sv: z < ä, cs: h < ch)
+    {
+        let mut files = std::collections::BTreeMap::new();
+        files.insert("/p/entry.ts".to_string(), "import parse from \"./gen/parser\";\nexport type Umlauts = \"z\" | \"\u{e4}\" | \"a\" | \"A\";\nexport type Digraphs = \"h\" | \"ch\" | \"i\" | \"c\";\nexport type Mixed = \"\u{e5}\" | \"aa\" | \"z\" | 10 | 9 | true;\nexport type Holder = { u: Umlauts; d?: Digraphs; m: Mixed[]; kind: \"\u{f6}\" | \"o\" | \"p\" };\nparse.buildParsers<{ Umlauts: Umlauts; Digraphs: Digraphs; Mixed: Mixed; Holder: Holder }>();\n".to_string());
+        corpus.push(Project { id: "env_locale_literals".into(), origin: "verif/sim/src/tools.rs".into(), origin_kind: "synthetic".into(), entry: "/p/entry.ts".into(), settings: crate::model::Settings { string_formats: vec![], number_formats: vec![] }, module: "esm".into(), files });
+    }
     // stress modules (id prefix "stress_"): used by the hash256 termination leg only
     for (n, style) in [(5, 0), (7, 1), (9, 0), (11, 2), (14, 0)] {
         corpus.push(crate::gen::dense_recursive_project(n, style));
